@@ -92,7 +92,9 @@ func main() {
 				stats["mark-ops"]++
 			}
 			if mode == 1 || mode == 3 {
-				t |= rng.Intn(3) << burndown.TreeMaxBinPower
+				// small developer indexes, and the large ones real runs use: 2^17 and its neighbour (bit 31 of the packed
+				// value), the own-repository author (262141) and the unmatched author (262142)
+				t |= []int{0, 1, 2, 0, 1, 2, 131071, 131072, 262141, 262142}[rng.Intn(10)] << burndown.TreeMaxBinPower
 			}
 			if rng.Intn(60) == 0 {
 				// a negative argument must be refused with a panic before anything is changed (no op line: the later
